@@ -190,6 +190,15 @@ func (publisher *Publisher) Places() map[string]*place {
 
 		// Get all of the unique place names.
 		for placeTag, node := range publisher.doc.Places() {
+			// When living individuals are hidden the places that are only
+			// known because of them must not be published either.
+			if publisher.options.LivingVisibility == LivingVisibilityHide {
+				individual := individualForNode(publisher.doc, node)
+				if individual != nil && individual.IsLiving() {
+					continue
+				}
+			}
+
 			prettyName := prettyPlaceName(placeTag.Value())
 
 			if prettyName == "" {
